@@ -221,6 +221,7 @@ func (e *Endpoint) serve(w http.ResponseWriter, r *http.Request) {
 			w.WriteHeader(503)
 		case Hang:
 			<-ctx.Done()
+			close(a.gone) // the client has given up
 		case Abort:
 			abort(w)
 		}
